@@ -430,10 +430,16 @@ void PedersenCommitmentScheme::CommitBy
 bool PedersenCommitmentScheme::TestMembership
 	(mpz_srcptr c) const
 {
-	if ((mpz_cmp_ui(c, 0L) > 0) && (mpz_cmp(c, p) < 0))
-		return true;
-	else
+	// check whether $0 < c < p$ and $c^q \equiv 1 \pmod{p}$, i.e. whether
+	// $c$ is an element of the subgroup generated by $g_1,\ldots,g_n,h$
+	if ((mpz_cmp_ui(c, 0L) <= 0) || (mpz_cmp(c, p) >= 0))
 		return false;
+	mpz_t foo;
+	mpz_init(foo);
+	mpz_powm(foo, c, q, p);
+	bool member = (mpz_cmp_ui(foo, 1L) == 0);
+	mpz_clear(foo);
+	return member;
 }
 
 bool PedersenCommitmentScheme::Verify
